@@ -824,11 +824,15 @@ impl Scenario for ArtefactMedium {
         };
         let deep_capable = matches!(kind, "script_bytes" | "script_hex" | "script_chunks" | "script_asm" | "tx_bytes" | "tx_hex" | "txout_hex" | "txin_hex");
         let deep = if deep_capable { deep } else { 0 };
-        let (bin, offs) = guard(|| Self::produce(rng, kind, deep)).unwrap_or((vec![], vec![]));
+        // the library's encoders make the fault-free artefact; an encoder that panics is outside C09 (decoders) but must not pass
+        // unseen: the plan records it and the run counts it
+        let produced = guard(|| Self::produce(rng, kind, deep));
+        let producer_panicked = produced.is_err();
+        let (bin, offs) = produced.unwrap_or((vec![], vec![]));
         let as_hex = hex_of_binary(kind);
         let cbor_heads: Vec<(usize, usize)> = if kind.contains("cbor") { Self::cbor_heads(&bin) } else { vec![] };
         // deep artefacts are stored by recipe (kind, n) so plans and replay files stay small
-        let mut events = if deep > 0 { vec![json!({"op": "store_deep", "kind": kind, "n": deep})] } else { vec![json!({"op": "store", "kind": kind, "data": hx(&bin), "hex_text": as_hex})] };
+        let mut events = if deep > 0 { vec![json!({"op": "store_deep", "kind": kind, "n": deep})] } else { vec![json!({"op": "store", "kind": kind, "data": hx(&bin), "hex_text": as_hex, "producer_panicked": producer_panicked})] };
         let mut len = bin.len();
         let n_faults = rng.weighted(&[10, 50, 25, 15]);
         for _ in 0..n_faults {
@@ -902,6 +906,9 @@ impl Scenario for ArtefactMedium {
             match jstr(ev, "op") {
                 "store" => {
                     ctx.event(seq, "store", jstr(ev, "kind"));
+                    if jbool(ev, "producer_panicked") {
+                        ctx.probe(&format!("note:encoder_panicked_while_producing:{}", jstr(ev, "kind")));
+                    }
                     medium = Some((jstr(ev, "kind").to_string(), jhex(ev, "data"), jbool(ev, "hex_text")));
                 }
                 "store_deep" => {
@@ -965,7 +972,9 @@ impl Scenario for ArtefactMedium {
                         ctx.probe("fault_free_decode");
                     }
                     let label = format!("decode:{}", to);
-                    ctx.crumb(&label);
+                    // a death is attributed to decoder and input size class: the known native-stack overflows need > 20 000 nested
+                    // conditionals (> 32 KiB of input), so the same abort on a small input is a different, unlisted defect
+                    ctx.crumb(&format!("{}{}", label, if input.len() >= 32768 { " len>=32k" } else { "" }));
                     if is_base58_kind(&to) && input.len() > BASE58_CAP {
                         ctx.probe("skipped_base58_quadratic");
                         ctx.skip();
